@@ -19,6 +19,7 @@ claimed = {
  "C11": dict(text="The real loader (all ten resolvers, resolveRefPath/resolvePath/resolveComponent, loadSingleElementFromURI, the raw re-read fallback) with every read routed through a recording ReadFromURIFunc. Harness 1: the reference text is symbolic (every 1-4 byte string over {#,/,.,:,a,j}; net/url.Parse interpreted on symbolic bytes) at each resolver position, switch off: 'a location other than the root is read' must be unreachable. Harness 2 (selector-symbolic, concrete per path): 14 positions x 15 spellings x 3 entry points x both switch settings through the JSON contract model, reads compared with the RFC 3986 resolution against the containing document.", ref="DESIGN.md §6 C11"),
  "C02": dict(text="Selector-symbolic (weak fit, said so): the explorer forks over reference layouts (9 kinds x 11 candidate spellings/targets x 2 entry points; cycles; 16 nested positions); each path runs the real loader end to end on an in-memory file table through the JSON contract model (all repository UnmarshalJSON methods interpreted) and compares Value (as JSON) and RefPath with the harness's own RFC-3986/JSON-pointer resolver; dangling and wrong-kind targets must fail. Little scalar content, so few solver queries: the value is systematic coverage of the ten resolver routines with an independent oracle.", ref="DESIGN.md §6 C02"),
  "C16": dict(text="Selector-symbolic (weak fit, said so): multi-file documents produced by the real loader (C02's layouts) go through the real InternalizeRefs; on every path the serialised result must contain only references to existing components of its own (none referring to itself), validate as before, reload with external references disallowed, keep every resolved Value, and never merge distinct targets; non-termination is caught by the step budget and confirmed by a native run that times out.", ref="DESIGN.md §6 C16"),
+ "C20": dict(text="Kernel only (byte-level parsing of arbitrary/malformed text is not applicable: encoding/json and yaml3 cannot be executed symbolically): every structure-level mutation of a valid document that uses every object kind (each JSON node replaced by a value of another type or removed) and adversarial reference graphs (all ordered pairs of component kinds, self/mutual cycles, dangling, shared reference text across kinds, empty and null entries) go through the real LoadFromData, Validate, MarshalJSON and InternalizeRefs via the JSON contract model; the panic monitor and step budget are the assertions; each reported panic/hang is reproduced natively.", ref="DESIGN.md §6 C20"),
  "C05": dict(text="Differential round trip: a reference serialiser written from the OAS 3.0.3 style table builds the request text from symbolic leaf texts (every printable-ASCII text within the length bound); the real decodeStyledParameter/ValidateParameter must return the same structure typed by the declared schema, found-flag and error class; string plumbing (prefix, delimiter, pair and index logic) is decided for all leaf texts at once.", ref="DESIGN.md §6 C05"),
  "C10": dict(text="Panic-freedom as reachability: every dereference, index, type assertion and explicit panic on every path of the real validators is an implicit assertion; inputs are all values within bounds against schemas whose only assumption is that the real Schema.Validate/T.Validate returned nil. A reached panic is replayed natively before it is reported.", ref="DESIGN.md §6 C10"),
  "C12": dict(text="Relational check with no oracle: the real VisitJSON is run in default, fail-fast, multi-error and customizer modes and through IsMatching on the same symbolic input; verdict equality and (JSON pointer resolves, Value is the value found there) for every SchemaError are asserted per path and closed by the solver.", ref="DESIGN.md §6 C12"),
